@@ -251,8 +251,8 @@ def enum_huge(tier):
 
 def parts():
     return [
-        Part("machines", check, strategy=case_st(60), budget={"quick": 1200, "thorough": 16000}, fuzz={"thorough": 4000}),
+        Part("machines", hs.with_epoch(check), strategy=hs.plus_epoch(case_st(60)), budget={"quick": 1200, "thorough": 16000}, fuzz={"thorough": 4000}),
         Part("long_runs", check, strategy=case_st(250), budget={"quick": 100, "thorough": 8000}, shrink_budget=120),
-        Part("deep_history", check, strategy=deep_case(), budget={"quick": 150, "thorough": 6000}, shrink_budget=120),
+        Part("deep_history", hs.with_epoch(check), strategy=hs.plus_epoch(deep_case()), budget={"quick": 150, "thorough": 6000}, shrink_budget=120),
         Part("huge_backlog_enum", check_huge, enumerate=enum_huge, exhaustive=True, procs={"quick": 4, "thorough": 16}),
     ]
